@@ -274,3 +274,40 @@ func H_member_forms() {
 	symx.AssertKnown(got == want, "member form "+string(rune('0'+form))+": accepted iff the value has this instance's type argument", known, id)
 	symx.Reach("end")
 }
+
+// H_site_reuse: ONE assignment / call site (a helper function body, a loop body) executed on
+// instances of two different instantiations, in both orders: what the site remembers from the
+// first instance must not decide the second.
+func H_site_reuse() {
+	a, b, kind := symx.Choose("A", 4), symx.Choose("B", 4), symx.Choose("kind", 4)
+	shape := symx.Choose("shape", 3) // 0 helper function writing the property, 1 helper calling the typed method, 2 loop body
+	w := symx.Int("w")
+	src := "class U {}\nclass Box<T> { public T $v; public function set(T $x) { $this->v = $x; return 1; } }\n"
+	src += "$x = new Box<" + typeArgs[a] + ">();\n$y = new Box<" + typeArgs[b] + ">();\n"
+	switch shape {
+	case 0:
+		src += "function put($o, $val) { try { $o->v = $val; mark(1); } catch (Throwable $e) { mark(0); } }\n"
+		src += "put($x, " + valueExprs[a] + ");\nput($y, " + valueExprs[kind] + ");\nput($x, " + valueExprs[kind] + ");\n"
+	case 1:
+		src += "function put($o, $val) { try { $o->set($val); mark(1); } catch (Throwable $e) { mark(0); } }\n"
+		src += "put($x, " + valueExprs[a] + ");\nput($y, " + valueExprs[kind] + ");\nput($x, " + valueExprs[kind] + ");\n"
+	case 2:
+		src += "$objs = [$x, $y, $x];\n$vals = [" + valueExprs[a] + ", " + valueExprs[kind] + ", " + valueExprs[kind] + "];\n"
+		src += "for ($i = 0; $i < 3; $i++) { $o = $objs[$i]; try { $o->v = $vals[$i]; mark(1); } catch (Throwable $e) { mark(0); } }\n"
+	}
+	s := sx.Compile(src)
+	symx.Assert(s.Err == nil, "history parses")
+	if s.Err != nil {
+		return
+	}
+	_, ctl := s.Run(sx.Bind{Name: "pw", V: sx.Int(w)})
+	symx.Assert(ctl == nil && len(sx.Log) == 3, "history runs, one outcome per write")
+	if ctl != nil || len(sx.Log) != 3 {
+		return
+	}
+	acc := func(i int) bool { return sx.Log[i].Kind == 'M' && sx.Log[i].I == 1 }
+	symx.Assert(acc(0), "the first instance accepts a value of its own type argument")
+	symx.Assert(acc(1) == (kind == b), "the second instance through the same site enforces ITS type argument")
+	symx.Assert(acc(2) == (kind == a), "the first instance through the same site still enforces its own")
+	symx.Reach("end")
+}
